@@ -17,7 +17,8 @@ Proof. reflexivity. Qed.
 (* the order of the steps of planning() *)
 Lemma gen_pipeline : g_pipeline = pipeline_steps.
 Proof. reflexivity. Qed.
-Lemma gen_isolation : g_route_memo = false /\ g_writes_sim_params = false /\ g_results_per_request = 1.
+Lemma gen_isolation : g_route_memo = false /\ g_writes_sim_params = false /\ g_results_per_request = 1 /\
+  g_explicit_path_new_list = true.
 Proof. repeat split. Qed.
 
 (* hence the source-selected pipeline has the batch properties *)
